@@ -189,6 +189,15 @@ def replay(f):
         tr = build_real(inp)
         if inp["action"] == "enable_features":
             key = inp["args"]["key"]
+            for sk in inp.get("stale_keys") or []:
+                # the feature is active but its stored values were never computed (arbitrary)
+                if sk == "iou":
+                    for u, v in tr.graph.edges():
+                        tr.graph.edges[u, v]["iou"] = -1.0
+                else:
+                    for n_ in tr.graph.nodes():
+                        old_v = tr.graph.nodes[n_].get(sk)
+                        tr.graph.nodes[n_][sk] = [-1.0] * len(old_v) if isinstance(old_v, (list, tuple)) else -1.0
             seg0 = tr.segmentation.copy()
             tr.enable_features([key])
             if ob == "C09.iou_bulk":
